@@ -22,9 +22,9 @@ try:
         tp=os.environ["SEED_TEST_CMD"]
     rc,o=sh(f"timeout 1200 go test -vet=off -count=1 {tp}"); meta["ran"].append({"cmd":f"go test -vet=off -count=1 {tp} (with change, demo absent)","rc":rc,"tail":o[-400:]}); assert rc==0, "existing tests fail with change: "+o
     for d in demos: shutil.copy(os.path.join(out,d), os.path.join(wt,demodir,d))
-    rc1,o1=sh(f"timeout 900 go test -vet=off -count=1 -run 'Seed' ./{demodir}/"); meta["ran"].append({"cmd":f"go test -run Seed ./{demodir}/ (with change)","rc":rc1,"tail":o1[-600:]})
+    rc1,o1=sh(f"timeout 900 go test -vet=off -count=1 {os.environ.get('SEED_DEMO_FLAGS','')} -run 'Seed' ./{demodir}/"); meta["ran"].append({"cmd":f"go test -run Seed ./{demodir}/ (with change)","rc":rc1,"tail":o1[-600:]})
     rc,o=sh(f"git apply -R {patch}"); assert rc==0
-    rc2,o2=sh(f"timeout 900 go test -vet=off -count=1 -run 'Seed' ./{demodir}/"); meta["ran"].append({"cmd":f"go test -run Seed ./{demodir}/ (unchanged code)","rc":rc2,"tail":o2[-300:]})
+    rc2,o2=sh(f"timeout 900 go test -vet=off -count=1 {os.environ.get('SEED_DEMO_FLAGS','')} -run 'Seed' ./{demodir}/"); meta["ran"].append({"cmd":f"go test -run Seed ./{demodir}/ (unchanged code)","rc":rc2,"tail":o2[-300:]})
     meta["demo_fails_with_change"]= rc1!=0
     meta["demo_passes_without_change"]= rc2==0
     assert rc1!=0 and rc2==0, f"demo with change rc={rc1}, without rc={rc2}\n{o1[-800:]}\n{o2[-800:]}"
@@ -34,7 +34,7 @@ try:
         sigs=[l.split("sig=")[1].split(" ")[0] for l in r.stdout.splitlines() if l.startswith("violation: sig=")]
         res[c]={"exit":r.returncode,"caught":r.returncode==1,"signatures":sigs[:6]}
     meta["checks"]=res
-    sd=os.path.join(V,"seeded",cid); os.makedirs(sd,exist_ok=True)
+    sd=os.path.join(V,"seeded",os.environ.get("SEED_NAME",cid)); os.makedirs(sd,exist_ok=True)
     shutil.copy(patch,sd)
     for d in demos: shutil.copy(os.path.join(out,d), os.path.join(sd,d+".txt"))
     if os.path.exists(os.path.join(out,"notes.md")): shutil.copy(os.path.join(out,"notes.md"),sd)
